@@ -38,9 +38,9 @@ FAMILIES = {
 PLAN_FILTER = {
     "C04": lambda n: n.startswith(("chain", "fork", "join", "diamond", "tok-dep", "tok-big", "tok3", "late", "resubmit-dep",
                                    "waitjob", "kill-restart", "rerun")),
-    "C05": lambda n: n.startswith(("dup", "resubmit", "rerun", "kill", "stop", "chain2-direct")),
+    "C05": lambda n: n.startswith(("dup", "resubmit", "rerun", "kill", "stop", "chain2-direct", "reuse")),
     "C06": lambda n: True,
-    "C07": lambda n: "fail" in n or n.startswith(("late", "diamond", "fork", "chain3", "resubmit", "rerun-failed", "oom", "kill-restart-oom", "startfail")),
+    "C07": lambda n: "fail" in n or n.startswith(("late", "diamond", "fork", "chain3", "resubmit", "rerun-failed", "oom", "kill-restart-oom", "startfail", "reuse")),
     "C08": lambda n: n.startswith(("tok", "kill-restart-tok", "startfail-tok")),
     "C09": lambda n: n.startswith(("tok", "kill-restart-tok", "startfail-tok")),
     "C11": lambda n: n.startswith(("rerun", "kill", "stop")),
@@ -72,9 +72,14 @@ def oracle(prop, result):
     jobs = plan["jobs"]
     cap = plan.get("tokens", {})
     prev = None
+    old = set()       # instances of earlier experiments of the same program
     for k, e in enumerate(evs, 1):
         st = e["st"]
         w = st["world"]
+        if e["a"] == "StartSame" and prev is not None:
+            old = set(prev["insts"])
+        elif e["a"] == "Start":
+            old = set()
         if prop in ("C04", "C07") and prev is not None:
             for n in jobs:
                 if w[n]["launches"] > prev["world"][n]["launches"]:
@@ -92,7 +97,7 @@ def oracle(prop, result):
             if prop == "C05" and e["a"] == "SubmitReturn" and e["args"]["r"] == "own" and prev is not None:
                 # a second job for a configuration already submitted in this experiment: only legitimate after a failure
                 n, num = e["args"]["j"].split("#")
-                if int(num) > 0 and sum(1 for i in prev["insts"] if i.startswith(n + "#")) >= 1 and w[n]["done"] and not w[n]["failed"]:
+                if int(num) > 0 and sum(1 for i in prev["insts"] if i.startswith(n + "#") and i not in old and i != e["args"]["j"]) >= 1 and w[n]["done"] and not w[n]["failed"]:
                     return k, f"a second job was created for {n}, which has succeeded and never failed"
         if prop == "C06":
             if prev is not None and prev["phase"] == "run" and st["phase"] != "dead" and st["inc"] == prev["inc"]:
@@ -110,7 +115,7 @@ def oracle(prop, result):
                     if v["pc"] not in ("reg", "regdone") and v["state"] not in ("DONE", "ERROR"):
                         return k, f"experiment wait returned while {i} is {v['state']}"
         if prop == "C07" and st["waiter"] in ("ok", "failed") and not st.get("exitmode"):
-            anyerr = any(v["state"] == "ERROR" and v["pc"] not in ("reg", "regdone") for v in st["insts"].values())
+            anyerr = any(v["state"] == "ERROR" and v["pc"] not in ("reg", "regdone") for i, v in st["insts"].items() if i not in old)
             if anyerr != (st["waiter"] == "failed"):
                 return k, f"exit reports {st['waiter']} with failed jobs={anyerr}"
         if prop in ("C08", "C09") and st["phase"] in ("run", "closed"):
